@@ -432,6 +432,36 @@ def check_kernel(ctx, case):
                       detail={"pair": [i, j]}):
       return False
 
+  # ---- the same object after its hyperparameters are re-assigned (what every optimiser step of the likelihood does): all
+  # entry points, values and gradients, must agree with a kernel freshly built at the new hyperparameters - anything memoised
+  # from the first evaluation has to be dropped by the setter
+  h2 = [v * f for v, f in zip(h, ([0.5, 1.7, 0.8, 2.5, 1.25] * 4)[:len(h)])]
+  try:
+    fresh = build_cov(spec, hyper=h2)
+    cov.hyperparameters = arr(h2)
+    pairs = [("covariance", cov.covariance(PX, PZ), fresh.covariance(PX, PZ)),
+             ("grad_covariance", cov.grad_covariance(PX, PZ), fresh.grad_covariance(PX, PZ)),
+             ("hyperparameter_grad_covariance", cov.hyperparameter_grad_covariance(PX, PZ), fresh.hyperparameter_grad_covariance(PX, PZ))]
+    if Z is None:
+      pairs += [("build_kernel_matrix", cov.build_kernel_matrix(Xa.copy()), fresh.build_kernel_matrix(Xa.copy())),
+                ("build_kernel_hparam_grad_tensor", cov.build_kernel_hparam_grad_tensor(Xa.copy()), fresh.build_kernel_hparam_grad_tensor(Xa.copy()))]
+    else:
+      pairs += [("build_kernel_matrix", cov.build_kernel_matrix(Xa.copy(), Ra.copy()), fresh.build_kernel_matrix(Xa.copy(), Ra.copy())),
+                ("build_kernel_hparam_grad_tensor", cov.build_kernel_hparam_grad_tensor(Xa.copy(), Ra.copy()),
+                 fresh.build_kernel_hparam_grad_tensor(Xa.copy(), Ra.copy()))]
+  except Exception as e:  # noqa
+    viol(ctx, "kernel: re-assigning valid hyperparameters / evaluating afterwards raised", case, {"error": f"{type(e).__name__}: {e}", "hyper": h2})
+    return False
+  for name, a_, b_ in pairs:
+    a_, b_ = numpy.asarray(a_, dtype=float), numpy.asarray(b_, dtype=float)
+    if a_.shape != b_.shape or not numpy.allclose(a_, b_, rtol=1e-12, atol=1e-300, equal_nan=True):
+      viol(ctx, f"{name} after re-assigning the hyperparameters differs from a kernel freshly built with them "
+                "(so it is not the derivative / value for the hyperparameters the kernel reports)", case,
+           {"first": h, "second": h2, "max_abs_difference": float(numpy.max(numpy.abs(a_ - b_))) if a_.shape == b_.shape else None})
+      return False
+  ctx.count("kernel re-used after re-assigning hyperparameters")
+  cov = build_cov(spec)
+
   # ---- correspondence with the Lean model
   if ctx.driver is None:
     return nontriv
@@ -1311,6 +1341,27 @@ def check_loglik(ctx, case):
       if not close_to(grad[k], mg[k], relk * sc + 1e-300):
         ctx.disagree(f"log-likelihood gradient[{k}]: model {mg[k]!r} vs implementation {float(grad[k])!r} (tol {relk * sc})", case)
         return True
+  # the same likelihood object after its hyperparameters are re-assigned (every optimiser step): value and gradient must
+  # agree with a freshly constructed likelihood at those hyperparameters
+  try:
+    lin2 = [v * f for v, f in zip(lin, ([0.6, 1.5, 0.75, 2.0, 1.2] * 4)[:len(lin)])]
+    hp2 = numpy.log(arr(lin2)) if logd else arr(lin2)
+    ll.hyperparameters = hp2
+    v_re, g_re = float(ll.compute_log_likelihood()), numpy.asarray(ll.compute_grad_log_likelihood(), dtype=float)
+    spec2 = dict(spec, hyper=lin2[:len(spec["hyper"])])
+    ll2 = GaussianProcessLogMarginalLikelihood(build_cov(spec2), hd, indices, use_auto_noise=auto, log_domain=logd, scaling_factor=scaling)
+    ll2.hyperparameters = hp2
+    v_fr, g_fr = float(ll2.compute_log_likelihood()), numpy.asarray(ll2.compute_grad_log_likelihood(), dtype=float)
+    ll.hyperparameters = hp
+    sc2 = max(abs(v_fr), 1e-300)
+    if abs(v_re - v_fr) > 1e-9 * sc2 or not numpy.allclose(g_re, g_fr, rtol=1e-7, atol=1e-9 * float(numpy.max(numpy.abs(g_fr)) + 1e-300)):
+      viol(ctx, "log-likelihood: value / gradient after re-assigning the hyperparameters differ from a freshly constructed likelihood "
+                "at the same hyperparameters", case, {"first": fl(hp), "second": fl(hp2), "value": [v_re, v_fr], "gradient": [fl(g_re), fl(g_fr)]})
+      return False
+    ctx.count("loglik re-used after re-assigning hyperparameters")
+  except (numpy.linalg.LinAlgError, ValueError):
+    ll.hyperparameters = hp
+    ctx.count("loglik re-assignment stage dropped (factorisation failed at the second hyperparameters)")
   if indices:
     # theorem loglik_grad_correction_zero: the term added under include_nonzero_correction is identically zero in exact
     # arithmetic (P' a = 0), so both settings of the flag are the derivative; in floating point they differ by the rounding
@@ -1412,7 +1463,13 @@ def gen_mean(rng, D, n):
   if u < 0.65:
     return [[0] * D]
   if u < 0.85 and n >= D + 3:
-    return [[0] * D] + [[int(i == j) for i in range(D)] for j in range(D)]
+    lin = [[int(i == j) for i in range(D)] for j in range(D)]
+    if rng.random() < 0.5:
+      rng.shuffle(lin)          # the same linear basis listed in another order (constant first)
+    terms = [[0] * D] + lin
+    if rng.random() < 0.15:
+      terms = lin + [[0] * D]   # ... or with the constant last
+    return terms
   if n >= 5:
     terms = [[0] * D]
     for _ in range(rng.randint(1, 2)):
